@@ -82,6 +82,8 @@ theorem collectE_rn (hν : Adm ν) (bs : List Name) : ∀ e : Expr,
   | .record _ args => by simp only [rnE, collectE, collectEs_rn hν bs args]
   | .tuple args => by simp only [rnE, collectE, collectEs_rn hν bs args]
   | .enumRec _ _ args => by simp only [rnE, collectE, collectEs_rn hν bs args]
+  | .range args => by simp only [rnE, collectE, collectEs_rn hν bs args]
+  | .slice a idx => by simp only [rnE, collectE, collectE_rn hν bs a, collectEs_rn hν bs idx, List.map_append]
   | .lam (.mk id n ps r body cs) => by
     by_cases hn : n = ""
     · have := collectF_rn hν bs "" (.mk id n ps r body cs)
